@@ -14,7 +14,7 @@ func init() {
 
 func planC12(tier string, seed int64) (*core.Plan, error) {
 	r := rng(seed)
-	n := 40
+	n := 100
 	if tier == "thorough" {
 		n = 300
 	}
@@ -71,6 +71,15 @@ func planC12(tier string, seed int64) (*core.Plan, error) {
 					}
 					emit(core.Case{"kind": "proto", "fixture": fname, "store": stores[i%len(stores)], "pre": pre,
 						"op": editOp{K: k, At: at, S: s, Src: "json"}})
+				}
+				// two independent trees: the source mostly carries another case of a choice than the
+				// target holds, so the editor clears the old case - callbacks of that clearing fail too
+				gp.PLeaf, gp.PCont = 0.7, 0.8
+				g2 := &gen.G{DS: f.DS, R: r, P: gp}
+				for i := 0; i < n/4; i++ {
+					pre, s := g2.Subtree(abs.Path{}), g2.Subtree(abs.Path{})
+					emit(core.Case{"kind": "proto", "fixture": fname, "store": stores[i%len(stores)], "pre": pre,
+						"op": editOp{K: []string{"upsert", "update"}[i%2], At: abs.Path{}, S: s, Src: "json"}})
 				}
 			}})
 	}
